@@ -152,6 +152,9 @@ def _scalar_node_from_value(
             int_value = int(scalar_value)
             if int_value == scalar_value and MIN_INT < int_value < MAX_INT:
                 return _ast.IntValue(value=str(int_value))
+        if isinstance(scalar_value, float) and not math.isfinite(scalar_value):
+            # nan, inf and -inf have no literal spelling.
+            raise ValueError()
         return _ast.FloatValue(value=str(scalar_value))
 
     if isinstance(scalar_value, str):
